@@ -81,7 +81,7 @@ def apalache_decimal(ctx, verdict, exprs, cases, sigs, name, spec, per_module=40
                   "Next == UNCHANGED bad", "Ok == bad = {}", "===="]
         return vlib.apalache(ctx, "\n".join(lines), mod, timeout=1500, extra_files={extends + ".tla": spec})
     failing = set()
-    with ThreadPoolExecutor(max_workers=min(8, len(chunks) or 1)) as ex:
+    with ThreadPoolExecutor(max_workers=min(8 if ctx.quick else 5, len(chunks) or 1)) as ex:
         for bad in ex.map(one, list(enumerate(chunks))):
             failing |= bad
     ctx.validated += len(exprs)
